@@ -59,6 +59,10 @@ func (s *Service) BeaconBlockRoot(ctx context.Context,
 	// The soft timeout is half the duration of the hard timeout.
 	hardCtx, cancel := context.WithTimeout(ctx, s.timeout)
 	softCtx, softCancel := context.WithTimeout(ctx, s.timeout/2)
+	// The slots that break a tie are looked up after the collection; a lookup can require
+	// a fetch of the block header, so it is bound by the same deadline as the collection.
+	lookupCtx, lookupCancel := context.WithDeadline(ctx, started.Add(s.timeout))
+	defer lookupCancel()
 
 	requests := len(s.beaconBlockRootProviders)
 
@@ -182,7 +186,7 @@ func (s *Service) BeaconBlockRoot(ctx context.Context,
 	bestRootCount := 0
 	bestRootSlot := phase0.Slot(0)
 	for root, count := range beaconBlockRootCounts {
-		slot, err := s.blockRootToSlotCache.BlockRootToSlot(ctx, root)
+		slot, err := s.blockRootToSlotCache.BlockRootToSlot(lookupCtx, root)
 		if err != nil {
 			log.Debug().Stringer("root", root).Err(err).Msg("Failed to obtain parent slot; assuming 0")
 		}
